@@ -5,12 +5,12 @@
 package gpack
 
 import (
-	"strconv"
 	"container/list"
 	"fmt"
 	"math"
 	"reflect"
 	"sort"
+	"strconv"
 	"strings"
 	"sync"
 
@@ -479,6 +479,30 @@ type AuxInfo struct {
 	Records            []interface{} // records of record-list packs
 	Version            byte          // record layout version (StatTransactionPack*)
 	ViaSetRecordsArray bool
+	// Count: the value of the pack's RecordCount field when CountSet. The field is carried next to the record blob (which
+	// has its own 16-bit counter); one record-list pack in six is given a RecordCount that differs from the number of
+	// records in the blob (a sender that merged or filtered after SetRecords, a foreign agent): the field survives as it
+	// is, and the records are those of the blob (seed C03-s24)
+	Count    int
+	CountSet bool
+}
+
+func skewCount(p pack.Pack, s *rfl.Stream, a *AuxInfo) *AuxInfo {
+	if s.Intn(6) != 0 {
+		return a
+	}
+	n := len(a.Records)
+	v := []int{1, n/2 + 1, n + 3, n - 1, 70000, 2}[s.Intn(6)]
+	if v == n || v < 0 {
+		v = n + 1
+	}
+	f := reflect.ValueOf(p).Elem().FieldByName("RecordCount")
+	if !f.IsValid() || !f.CanSet() {
+		return a
+	}
+	f.SetInt(int64(v))
+	a.Count, a.CountSet = v, true
+	return a
 }
 
 var (
@@ -637,7 +661,7 @@ func init() {
 			}
 			recs := ServiceRecs(s)
 			sp.SetRecords(len(recs), &sliceEnum{items: toIfaces(recs)})
-			setAux(p, &AuxInfo{Records: toIfaces(recs)})
+			setAux(p, skewCount(p, s, &AuxInfo{Records: toIfaces(recs)}))
 		}, nil, "StatServicePack.Records", "StatServicePack.RecordCount")
 
 	add(&Spec{Name: "StatGeneralPack", Code: pack.PACK_STAT_GENERAL, Registered: true, New: func() pack.Pack { return pack.NewStatGeneralPack() },
@@ -671,7 +695,7 @@ func init() {
 			} else {
 				sp.SetRecordsList(toList(recs))
 			}
-			setAux(p, &AuxInfo{Records: toIfaces(recs)})
+			setAux(p, skewCount(p, s, &AuxInfo{Records: toIfaces(recs)}))
 		}, nil, "StatSqlPack.Records", "StatSqlPack.RecordCount")
 
 	simple("StatHttpcPack", pack.PACK_STAT_HTTPC, true, func() pack.Pack { return pack.NewStatHttpcPack() },
@@ -696,7 +720,7 @@ func init() {
 			} else {
 				sp.SetRecordsList(toList(recs))
 			}
-			setAux(p, &AuxInfo{Records: toIfaces(recs)})
+			setAux(p, skewCount(p, s, &AuxInfo{Records: toIfaces(recs)}))
 		}, nil, "StatHttpcPack.Records", "StatHttpcPack.RecordCount")
 
 	simple("StatErrorPack", pack.PACK_STAT_ERROR, true, func() pack.Pack { return pack.NewStatErrorPack() },
@@ -718,7 +742,7 @@ func init() {
 			} else {
 				sp.SetRecordsArray(recs)
 			}
-			setAux(p, &AuxInfo{Records: toIfaces(recs), ViaSetRecordsArray: arr})
+			setAux(p, skewCount(p, s, &AuxInfo{Records: toIfaces(recs), ViaSetRecordsArray: arr}))
 		}, nil, "StatErrorPack.Records", "StatErrorPack.RecordCount")
 
 	simple("StatRemoteIpPack", pack.PACK_STAT_REMOTE_IP, true, func() pack.Pack { return pack.NewStatRemoteIpPack() },
@@ -1016,7 +1040,7 @@ func init() {
 				rfl.Fill(recs[i], s, opts())
 			}
 			dp.SetRecords(recs)
-			setAux(p, &AuxInfo{Records: toIfaces(recs)})
+			setAux(p, skewCount(p, s, &AuxInfo{Records: toIfaces(recs)}))
 		}, nil, "SMDownCheckPack.Records", "SMDownCheckPack.RecordCount")
 	simple("SMExtension", pack.PACK_SM_EXTENSION, false, func() pack.Pack { return pack.NewSMExtensionPack() },
 		func(p pack.Pack, s *rfl.Stream, _ int) {
@@ -1066,7 +1090,7 @@ func init() {
 						tp.SetRecords(len(recs), &sliceEnum{items: toIfaces(recs)})
 					}
 				}
-				setAux(p, &AuxInfo{Records: toIfaces(recs), Version: ver})
+				setAux(p, skewCount(p, s, &AuxInfo{Records: toIfaces(recs), Version: ver}))
 				return p
 			}})
 	}
